@@ -10,6 +10,7 @@ import (
 	rast "github.com/gardenbed/emerge/internal/regex/parser/ast"
 	"github.com/gardenbed/emerge/internal/regex/parser/nfa"
 	"github.com/gardenbed/emerge/verif/ev"
+	"github.com/gardenbed/emerge/verif/ref/bracketref"
 	"github.com/gardenbed/emerge/verif/ref/patgram"
 	"github.com/gardenbed/emerge/verif/ref/regexref"
 	"github.com/gardenbed/emerge/verif/rx"
@@ -121,7 +122,7 @@ func main() {
 		r.Finish()
 	}
 	if r.Fork(16) {
-		r.Set("rule", "all strings up to the length bound over the 24-symbol alphabet "+string(sigma)+" (every metacharacter plus representatives), canonical prints of the C02 pattern trees, all single-character insertions/deletions/replacements of the prints of trees with <= 2 (quick) / 3 (thorough) operator nodes, meaningless ranges, repetition counts written with up to 19 leading zeros, every class name (known to the implementation or documented, and near misses) in 10 contexts, and every character (all of ASCII plus 5 others) in 30 item contexts (escape, bracket item, range end, repetition count, class name, hex digit); non-trivial = accepted by at least one entry point (or a meaningless-range case); distinct by text")
+		r.Set("rule", "all strings up to the length bound over the 24-symbol alphabet "+string(sigma)+" (every metacharacter plus representatives), canonical prints of the C02 pattern trees, all single-character insertions/deletions/replacements of the prints of trees with <= 2 (quick) / 3 (thorough) operator nodes, meaningless ranges, every bracket group assembled from up to 3 (quick) / 4 (thorough) of 18 bracket tokens judged by all of its derivations in the documented grammar (all valid and agreeing: must be accepted; all holding a descending range: must be rejected naming one), repetition counts written with up to 19 leading zeros, every class name (known to the implementation or documented, and near misses) in 10 contexts, and every character (all of ASCII plus 5 others) in 30 item contexts (escape, bracket item, range end, repetition count, class name, hex digit); non-trivial = accepted by at least one entry point (or a meaningless-range case); distinct by text")
 		r.Set("evaluations", r.Get("strings"))
 		r.Finish()
 	}
@@ -220,6 +221,28 @@ func main() {
 		} {
 			checkMeaningless(r, c.p, c.f)
 		}
+		// bracket groups assembled from every sequence of bracket tokens (a bare `]`, `!` and two hexadecimal characters
+		// among them, so that every kind of character stands at both ends of ranges): when all derivations in the
+		// documented grammar are valid and agree, and the greedy reading in documented order agrees too, the group is in
+		// an unambiguous form and must be accepted; when every
+		// derivation holds a descending range it must be rejected with an error naming one; otherwise only
+		// "accepted => sentence" is demanded
+		nb := 3
+		if !r.Quick() {
+			nb = 4
+		}
+		rx.BracketTexts(append(rx.BracketTokens(), "]", "!", `\x5D`, `\x7A`), nb, func(text string, res bracketref.Result) {
+			_, demanded := rx.Demanded(text, res)
+			switch {
+			case res.Derivations < 0:
+			case demanded:
+				checkString(r, text, "bracket_unambiguous", true)
+			case res.Derivations > 0 && res.Invalid == res.Derivations:
+				checkMeaningless(r, text, res.BadRanges)
+			default:
+				checkString(r, text, "bracket_other", false)
+			}
+		})
 		// repetition ranges whose minimum exceeds the maximum, with counts of every digit length
 		counts := []string{"0", "1", "2", "9", "10", "99", "100", "999", "1000", "1001", "9999", "10000", "10001", "10005", "99999", "100000", "1000999", "4294967296", "18446744073709551616", "99999999999999999999"}
 		val := func(s string) float64 {
